@@ -872,12 +872,16 @@ package scipipe
 //@   ensures direct-upstream-listed: forall q ref :: q != nil && directUp(q, proc) ==> procName(q) in procs
 //@   ensures closed-under-upstream: forall k string, q ref :: k in procs && q != nil && directUp(q, procOf(k)) ==> procName(q) in procs
 //@   ensures only-upstream: forall k string :: k in procs ==> directUp(procOf(k), proc) || (exists k2 string :: k2 in procs && directUp(procOf(k), procOf(k2)))
+//@   loop 0 invariant entry-allocated: forall k string :: joinPort(portInfos, k) ==> !fresh(old(inIPs[k])) && !fresh(old(inIPs[k].SubStream)) && !fresh(old(subChan(inIPs, k)))
+//@   loop 0 invariant inputs-unchanged: forall k string :: joinPort(portInfos, k) ==> inIPs[k] == old(inIPs[k]) && inIPs[k].SubStream == old(inIPs[k].SubStream) && subChan(inIPs, k) == old(subChan(inIPs, k))
 //@   loop 0 invariant fresh: fresh(procs) && procs != nil
 //@   loop 0 invariant vis: forall i string :: $visited[i] ==> i in inPortsOf(proc)
 //@   loop 0 invariant keyed: keyedByName(procs)
 //@   loop 0 invariant direct: forall i string, r string :: $visited[i] && r in inPortsOf(proc)[i].RemotePorts && inPortsOf(proc)[i].RemotePorts[r].process != nil ==> procName(inPortsOf(proc)[i].RemotePorts[r].process) in procs
 //@   loop 0 invariant closed: forall k string, q ref :: k in procs && q != nil && directUp(q, procOf(k)) ==> procName(q) in procs
 //@   loop 0 invariant only-upstream: forall k string :: k in procs ==> directUp(procOf(k), proc) || (exists k2 string :: k2 in procs && directUp(procOf(k), procOf(k2)))
+//@   loop 1 invariant entry-allocated: forall k string :: joinPort(portInfos, k) ==> !fresh(old(inIPs[k])) && !fresh(old(inIPs[k].SubStream)) && !fresh(old(subChan(inIPs, k)))
+//@   loop 1 invariant inputs-unchanged: forall k string :: joinPort(portInfos, k) ==> inIPs[k] == old(inIPs[k]) && inIPs[k].SubStream == old(inIPs[k].SubStream) && subChan(inIPs, k) == old(subChan(inIPs, k))
 //@   loop 1 invariant fresh: fresh(procs) && procs != nil
 //@   loop 1 invariant cur: inp != nil && (exists i string :: i in inPortsOf(proc) && inPortsOf(proc)[i] == inp)
 //@   loop 1 invariant vis: forall r string :: $visited[r] ==> r in inp.RemotePorts
@@ -886,6 +890,7 @@ package scipipe
 //@   loop 1 invariant direct-cur: forall r string :: $visited[r] && inp.RemotePorts[r].process != nil ==> procName(inp.RemotePorts[r].process) in procs
 //@   loop 1 invariant closed: forall k string, q ref :: k in procs && q != nil && directUp(q, procOf(k)) ==> procName(q) in procs
 //@   loop 1 invariant only-upstream: forall k string :: k in procs ==> directUp(procOf(k), proc) || (exists k2 string :: k2 in procs && directUp(procOf(k), procOf(k2)))
+//@   loop 2 invariant entry-allocated: forall k string :: joinPort(portInfos, k) ==> !fresh(old(inIPs[k])) && !fresh(old(inIPs[k].SubStream)) && !fresh(old(subChan(inIPs, k)))
 //@   loop 2 invariant fresh: fresh(procs) && procs != nil
 //@   loop 2 invariant vis: forall i string :: $visited[i] ==> i in inParamPortsOf(proc)
 //@   loop 2 invariant keyed: keyedByName(procs)
